@@ -66,7 +66,7 @@ Proof.
             s_op st = o -> res_sound gshape (map (resolve (mkT sh k) inputs) (s_args st)) (run_op gshape gaxes (s_op st) (map (resolve (mkT sh k) inputs) (s_args st)))).
   { intros o (Ha & Hg & Hb & gs & ->) Ho. rewrite Ha, Ho. cbn [map resolve].
     apply generic_sound; auto. apply batch_aligned_ok; auto. }
-  destruct (s_op st) as [ | | | | | | | |d| | | | | | | | | | | | | | | | |f| | | | | | ] eqn:Eo;
+  destruct (s_op st) as [ | | | | | | | |d| | | | | | | | | | | | | | | | |f| | | | | | | ] eqn:Eo;
     try (apply (Hgen _ Hok eq_refl)); try (destruct Hok as (_ & Hg & _); discriminate Hg).
   - (* cat *)
     destruct Hok as (Hd & Hne & Hall).
@@ -125,7 +125,7 @@ Proof.
              eapply res_batch_not_single; eauto; fail).
       cbn [pick_out] in Hpo. injection Hpo as <-. cbn in Ek. discriminate Ek.
     - apply nth_error_In in Hpo. apply in_map_iff in Hpo. destruct Hpo as (d & <- & _). cbn in Ek. discriminate Ek. }
-  destruct (s_op st) as [ | | | | | | | |d| | | | | | | | | | | | | | | | |f| | | | | | ] eqn:Eo;
+  destruct (s_op st) as [ | | | | | | | |d| | | | | | | | | | | | | | | | |f| | | | | | | ] eqn:Eo;
     try (destruct Hok as (Ha & Hg & _ & gs & ->); rewrite Ha in Hp; cbn [map resolve] in Hp; eapply Hgen; eauto; fail);
     try (destruct Hok as (_ & Hg & _); discriminate Hg).
   - (* cat *)
